@@ -699,6 +699,19 @@ pub struct DedupeConfig {
     pub no_check_size: bool,
 }
 
+impl DedupeConfig {
+    /// Makes the relative path patterns absolute by anchoring them at the given directory,
+    /// the same way as the path patterns of the `group` command
+    pub fn anchor_path_patterns(&mut self, base_dir: &Path) {
+        for patterns in [&mut self.path_patterns, &mut self.keep_path_patterns] {
+            *patterns = patterns
+                .drain(..)
+                .map(|p| PathSelector::abs_pattern(base_dir, p))
+                .collect();
+        }
+    }
+}
+
 #[derive(clap::Subcommand, Debug)]
 pub enum Command {
     /// Produce a list of groups of identical files.
